@@ -8,7 +8,7 @@
 
     Assumed, not proved (level: partial): asyncio.gather starts every awaitable and returns
     results in argument order (= one result slot per task); OS process semantics. *)
-From PV Require Import Cmd CmdProofs.
+From PV Require Import Cmd CmdProofs GenC17 GenC17Proofs.
 Import ListNotations.
 Open Scope string_scope.
 Open Scope list_scope.
@@ -180,3 +180,133 @@ Example C17_all_started_nonvacuous :
   /\ In (ASer ["b"; "c"]) (entries (async_sub ["b"; "c"]))
   /\ In "b" (entry_head (ASer ["b"; "c"])).
 Proof. vm_compute. auto 10. Qed.
+
+(** * Tie B — the model IS the current source
+
+    Gen/GenC17.v is regenerated from pypyr/subproc.py, pypyr/steps/dsl/cmd.py,
+    pypyr/aio/subproc.py and pypyr/steps/dsl/cmdasync.py before every build (tools/py2coq_c17.py).
+    [os args shell] is what the operating system does with an argv; the model's oracle is the OS
+    applied to what pypyr hands it: [orc_of os shell c = os (sync_args shell c) shell].
+    [G_*] are the generated methods with CPython's subprocess / asyncio calls plugged in
+    ([py_subprocess_run], [py_check_returncode], [py_create_subprocess], [py_communicate]). *)
+
+(** pypyr.subproc.Command._run = [run1]: spawn; when saving, append the result BEFORE the
+    exit-status check; raise on non-zero / spawn failure *)
+Theorem C17_source_Command__run_is_model : forall os shell k c s,
+  G__run os (py_of shell k) c s =
+  (to_gout (snd (run1 (orc_of os shell) shell k c)),
+   after shell s [c] (fst (run1 (orc_of os shell) shell k c))).
+Proof. exact gen__run_is_model. Qed.
+Print Assumptions C17_source_Command__run_is_model.
+
+(** pypyr.subproc.Command.run = [run_strs]: str -> one run; list -> each in order, stop at the
+    first raise *)
+Theorem C17_source_Command_run_is_model : forall os shell k s,
+  G_run os (py_of shell k) s =
+  (let '(st, rs, er) := run_strs (orc_of os shell) shell k (run_list (sc_run k)) in
+   (to_gout er, after shell s st rs)).
+Proof. exact gen_run_is_model. Qed.
+Print Assumptions C17_source_Command_run_is_model.
+
+(** CmdStep.run_step = [run_cmds] + [sync_cmdout]: the two try/finally levels, when cmdOut is
+    written and in which shape, when the error propagates *)
+Theorem C17_source_CmdStep_run_step_is_model : forall os shell ks s,
+  gobs (G_run_step os (map (py_of shell) ks) s) =
+  (let '(st, rs, er) := run_cmds (orc_of os shell) shell ks in
+   (to_gout er, g_trace s ++ spawned shell st,
+    match rs with [] => g_out s | _ => sync_cmdout rs end)).
+Proof. exact gen_run_step_is_model. Qed.
+Print Assumptions C17_source_CmdStep_run_step_is_model.
+
+(** end to end: the generated cmd/shell step reports exactly what [run_sync] reports *)
+Theorem C17_source_sync_step_is_model : forall os shell cf s,
+  g_trace s = [] -> g_out s = OutUnset ->
+  gobs (G_run_step os (map (py_of shell) (sync_commands cf)) s) =
+  (let m := run_sync (orc_of os shell) shell cf in
+   (match ob_err m with Raised e => GExc e | _ => GOk end,
+    spawned shell (ob_started m), ob_out m)).
+Proof. exact gen_sync_step_is_run_sync. Qed.
+Print Assumptions C17_source_sync_step_is_model.
+
+(** SubprocessResult.check_returncode = [res_error] on result objects *)
+Theorem C17_source_check_returncode_is_model : forall cmd rc o e,
+  opt_list (gen_SubprocessResult_check_returncode (R1 cmd rc o e)) = res_error (R1 cmd rc o e).
+Proof. exact gen_check_returncode_is_model. Qed.
+Print Assumptions C17_source_check_returncode_is_model.
+
+(** aio Command._parse_result: the model's per-element errors are the (unique) fixpoint of the
+    generated recursion; parse_results flattens them in order *)
+Theorem C17_source_parse_result_is_model : forall rec x,
+  G_parse_result entry_errors x = entry_errors x /\
+  G_parse_result (G_parse_result rec) x = entry_errors x.
+Proof. intros. split; [apply gen_parse_result_is_model|apply gen_parse_result_unique]. Qed.
+Print Assumptions C17_source_parse_result_is_model.
+
+Theorem C17_source_parse_results_is_model : forall results,
+  G_parse_results entry_errors results = flat_map entry_errors results.
+Proof. exact gen_parse_results_is_model. Qed.
+Print Assumptions C17_source_parse_results_is_model.
+
+(** aio Command._spawn = the model's [async_result] (handles: PIPE exactly when saving) *)
+Theorem C17_source_aio_spawn_is_model : forall os shell k c s,
+  G_spawn os (apy_of shell k) c (ac_save k) (ac_save k) s =
+  (match orc_of os shell c with
+   | Exited rc o e => GVal (async_result shell (ac_save k) (ac_text k) c rc o e)
+   | SpawnFail n m => GRaise (PExn n m)
+   end, aafter shell s [c] []).
+Proof. exact gen_spawn_is_model. Qed.
+Print Assumptions C17_source_aio_spawn_is_model.
+
+(** aio Command._run on a serial sub-list = [ser_spec]: in order, stop after the first
+    non-zero exit, a spawn error is recorded as the last element; exactly [upto_bad] is spawned *)
+Theorem C17_source_aio_serial_run_is_model : forall os shell k l s,
+  G_arun os (apy_of shell k) (ASer l) (ac_save k) (ac_save k) s =
+  (GVal (ESer (map snd (ser_spec (orc_of os shell) shell (ac_save k) (ac_text k) l))),
+   aafter shell (aset_local s []) (upto_bad (orc_of os shell) l)
+          (map snd (ser_spec (orc_of os shell) shell (ac_save k) (ac_text k) l))).
+Proof. exact gen_arun_list_is_model. Qed.
+Print Assumptions C17_source_aio_serial_run_is_model.
+
+Theorem C17_source_aio_single_run_is_model : forall os shell k c s,
+  G_arun os (apy_of shell k) (AOne c) (ac_save k) (ac_save k) s =
+  (match orc_of os shell c with
+   | Exited rc o e => GVal (EOne (async_result shell (ac_save k) (ac_text k) c rc o e))
+   | SpawnFail n m => GRaise (PExn n m)
+   end, aafter shell s [c] []).
+Proof. exact gen_arun_one_is_model. Qed.
+Print Assumptions C17_source_aio_single_run_is_model.
+
+(** aio Commands.run: results of the saving Commands in order; ONE MultiError with every error
+    of every Command in order iff there is any *)
+Theorem C17_source_Commands_run_is_model : forall cs s,
+  G_commands_run cs s =
+  (match errors_of cs with [] => GOk | _ => GExc (PExn "pypyr.errors.MultiError" "") end,
+   mkAst (a_trace s) (a_local s) true (a_results s ++ saved_of cs) (errors_of cs) (a_out s)).
+Proof. exact gen_commands_run_is_model. Qed.
+Print Assumptions C17_source_Commands_run_is_model.
+
+(** end to end, for every schedule: Commands.run + AsyncCmdStep.run_step on the Commands as the
+    event loop leaves them report the model's cmdOut and error *)
+Theorem C17_source_async_step_is_model : forall os shell sched cf s,
+  a_results s = [] -> a_out s = OutUnset ->
+  let m := run_async (orc_of os shell) shell sched cf in
+  let r := G_async_step os shell (async_commands cf) s in
+  a_out (snd r) = ob_out m /\
+  match ob_err m with
+  | NoError => fst r = GOk
+  | Raised _ => False
+  | Multi l => fst r = GExc (PExn "pypyr.errors.MultiError" "") /\ a_errors (snd r) = l
+  end.
+Proof. exact gen_async_step_is_run_async. Qed.
+Print Assumptions C17_source_async_step_is_model.
+
+(** every oracle that depends on the command line only through what pypyr passes to the OS is
+    of the form [orc_of os shell]; instance: *)
+Example C17_source_nonvacuous :
+  let os := fun (a : val) (sh : bool) =>
+              if val_eqb a (VList [VStr "b"]) then Exited 3 "out-b " "err-b" else Exited 0 "" "" in
+  gobs (G_run_step os (map (py_of false) (sync_commands scf0)) (mkGst [] [] [] OutUnset)) =
+  (GExc (PErr "subprocess.CalledProcessError" (VList [VStr "b"]) 3 (VStr "out-b ") (VStr "err-b")),
+   [(VList [VStr "a"], false); (VList [VStr "b"], false)],
+   OutSingle (R1 (VList [VStr "b"]) 3 (VStr "out-b") (VStr "err-b"))).
+Proof. vm_compute. reflexivity. Qed.
